@@ -212,18 +212,19 @@ func trimStack(s string) string {
 // run state ------------------------------------------------------------------------------------
 
 type runner struct {
-	res      *lib.Result
-	fl       lib.Flags
-	rnd      *lib.Rand
-	budget   float64 // multiplier of the generators' case counts
-	perEP    map[string]int
-	slow     map[string]time.Duration
-	model    []modelCase       // cases that also go to the Lean model
-	seeds    map[string][]Case // a few executed cases per entry point: seed corpus of the native fuzz targets
-	dead     map[string]bool   // entry points that hung: not called again (their goroutines still spin)
-	prevEP   map[string]Case   // previous case per entry point
-	prevAny  *Case             // previous case of any entry point
-	canaries map[string]Case   // first successful case per entry point, re-run at the end
+	res          *lib.Result
+	fl           lib.Flags
+	rnd          *lib.Rand
+	budget       float64 // multiplier of the generators' case counts
+	perEP        map[string]int
+	slow         map[string]time.Duration
+	model        []modelCase       // cases that also go to the Lean model
+	seeds        map[string][]Case // a few executed cases per entry point: seed corpus of the native fuzz targets
+	dead         map[string]bool   // entry points that hung: not called again (their goroutines still spin)
+	prevEP       map[string]Case   // previous case per entry point
+	prevAny      *Case             // previous case of any entry point
+	canaries     map[string]Case   // first successful case per entry point, re-run at the end
+	canaryDetail map[string]string
 }
 
 func findingID(c Case, o outcome) string {
@@ -271,6 +272,7 @@ func (r *runner) do(c Case) outcome {
 		r.prevAny = &cc
 		if _, have := r.canaries[c.EP]; !have && o.Class == clsOK && len(c.Before) == 0 && c.Family != "scaling" {
 			r.canaries[c.EP] = c
+			r.canaryDetail[c.EP] = o.Detail
 		}
 	}
 	if o.Class == clsSkip {
@@ -359,7 +361,7 @@ func main() {
 	}
 	inflightInit()
 	res := lib.NewResult("a case is (entry point, arguments); non-trivial = at least one non-empty argument; distinct = distinct (entry point, arguments)")
-	r := &runner{res: res, fl: fl, rnd: lib.NewRand(fl.Seed*0x9e3779b97f4a7c15 + 7), budget: 1, perEP: map[string]int{}, slow: map[string]time.Duration{}, seeds: map[string][]Case{}, dead: map[string]bool{}, prevEP: map[string]Case{}, canaries: map[string]Case{}}
+	r := &runner{res: res, fl: fl, rnd: lib.NewRand(fl.Seed*0x9e3779b97f4a7c15 + 7), budget: 1, perEP: map[string]int{}, slow: map[string]time.Duration{}, seeds: map[string][]Case{}, dead: map[string]bool{}, prevEP: map[string]Case{}, canaries: map[string]Case{}, canaryDetail: map[string]string{}}
 	if fl.Tier == "thorough" {
 		r.budget = 8
 	}
@@ -519,6 +521,9 @@ func (r *runner) runCanaries() {
 		r.res.Hit("canary:" + o.Class)
 		if o.Class != clsOK && o.Class != clsTimeout && o.Class != clsPanic && o.Class != clsSkip {
 			r.res.Violate(id+"-state-changed", fmt.Sprintf("%s: a call that succeeded at the start of the run returns %s at its end: some input left state behind", id, o.Class), c)
+		} else if o.Class == clsOK && o.Detail != r.canaryDetail[id] && id != "time-parsetime" {
+			// the canonical result of the same call differs (every entry point's detail is a function of its arguments)
+			r.res.Violate(id+"-state-changed", fmt.Sprintf("%s: the same call returned %q at the start of the run and %q at its end: some input left state behind", id, r.canaryDetail[id], o.Detail), c)
 		}
 	}
 }
